@@ -212,7 +212,7 @@ def is_special(d):
 TLD_CLASS_NAMES = ["UNUSED", "NOT_ASSIGNED", "COUNTRY_CODE", "GENERIC", "GENERIC_RESTRICTED", "INFRASTRUCTURE",
                    "SPONSORED", "TEST", "SPECIAL", "RETIRED"]
 
-_ROW = re.compile(r'\{\s*"([^"]*)"\s*,\s*(\d+)\s*,\s*TLD_TYPE_([A-Z_]+)\s*\}')
+_ROW = re.compile(r'\{\s*"([^"]*)"\s*,\s*(\d+)\s*,[^}]*?TLD_TYPE_([A-Z_]+)[^}]*\}')
 
 
 def load_tld_table(repo):
